@@ -38,16 +38,28 @@ func c01Valid(r *lib.Rng, n int) string {
 	return renderTokens(r, toks)
 }
 
+var c01SpecialLines = []string{"local x = _G", "print(_G", "_G.", "_G.x", "_G[", "_G[\"", "local s = self", "self.", "self:", "require(", "require(\"", "require(\"a.", "dofile(\"",
+	"---@", "---@type ", "---@param ", "---@field ", "--", "...", "a.b.c.", "a:", "(\"s\"):", "#", "::l::", "goto l", "local t = {", "t[#t+1] = ", "x = x..", "x = #", "f(function()",
+	"local _ENV = ", "_ENV.", "string.", "string.format(", "math.", "io.", "os.", "table.insert(", "coroutine.", "package.", "debug.", "utf8.", "local function", "function t.", "function t:", "for i = ", "for k, v in "}
+
 func genC01Scenario(seed int64, idx int) c01Scenario {
 	r := lib.NewRng(uint64(seed)).Fork(uint64(idx))
 	sc := c01Scenario{files: map[string]string{}, open: "main.lua"}
 	switch idx % 8 {
 	case 0: // token soup / raw bytes
 		sc.kind = "lua-soup"
-		if r.Chance(1, 2) {
+		switch r.Intn(3) {
+		case 0:
 			sc.files["main.lua"] = genSoup(r, 60)
-		} else {
+		case 1:
 			sc.files["main.lua"] = string(genRawBytes(r, 200))
+		default:
+			// half-typed lines around the names and characters the handlers treat specially
+			var ls []string
+			for k := 0; k < 14; k++ {
+				ls = append(ls, c01SpecialLines[r.Intn(len(c01SpecialLines))])
+			}
+			sc.files["main.lua"] = strings.Join(ls, "\n")
 		}
 		sc.files["other.lua"] = genSoup(r, 30)
 	case 1: // near-valid programs: mutated and truncated
